@@ -151,7 +151,9 @@ class TraitDict(dict):
         Any return values are ignored.
         """
 
-        for notifier in self.notifiers:
+        # Iterate over a copy: a notifier may remove itself (or others)
+        # from the list while being called.
+        for notifier in list(self.notifiers):
             notifier(self, removed, added, changed)
 
     # -- dict interface -------------------------------------------------------
